@@ -181,6 +181,9 @@ func (r *runner) note(o *Outcome) {
 			r.res.Probes["earlier-call-cut-short-by-a-failing-source"]++
 		}
 	}
+	if len(c.Companion) > 0 {
+		r.res.Probes["another-detection-running-at-the-same-time"]++
+	}
 	if c.Carrier != "" && o.Stream != nil && o.Stream.Len() >= 0 {
 		r.res.Probes["carrier-"+c.Carrier]++
 		if c.CarrierOffset > 0 {
